@@ -4,8 +4,180 @@ package options
 
 // Contracts for fvc (see /verif/DESIGN.md). Comment-only file.
 
-// TEMPORARILY ASSUMED for callers (see C18): default option values as a substitution map
-//@ extern func MakeDefaultOptions
-//@   params cfg
+// ---- options.go: evaluation of one option value (C18) -----------------------------------------------------------------------
+// "evaluation either rejects the Job or yields exactly one value per option that respects the option's constraints,
+// using the declared default exactly when no value was given"
+
+//@ import stringsutils "github.com/furiko-io/furiko/pkg/utils/strings"
+
+// the configuration in force (a missing configuration block means all defaults)
+//@ pure strDefault(cfg *execution.StringOptionConfig) string = cfg == nil ? "" : cfg.Default
+//@ pure strTrim(cfg *execution.StringOptionConfig) bool = cfg != nil && cfg.TrimSpaces
+//@ pure strGiven(value any, cfg *execution.StringOptionConfig) string = value == nil ? strDefault(cfg) : unbox(value, string)
+//@ pure strNorm(v string, cfg *execution.StringOptionConfig) string = strTrim(cfg) ? trimSpace(v) : v
+
+//@ func EvaluateOptionString
+//@   tags C18
+//@   ensures [C18] wrong-type-is-rejected: value != nil && !typeis(value, string) ==> result1 != nil
+//@   ensures [C18] value-or-default-then-trimmed: result1 == nil ==> result0 == strNorm(strGiven(value, cfg), cfg)
+//@   ensures [C18] required-means-non-empty: result1 == nil && option.Required ==> len(result0) > 0
+//@   ensures [C18] accepted-otherwise: (value == nil || typeis(value, string)) && !(option.Required && len(strNorm(strGiven(value, cfg), cfg)) == 0) ==> result1 == nil
+//@   ensures result1 != nil ==> result0 == ""
+
+//@ pure selDefault(cfg *execution.SelectOptionConfig) string = cfg == nil ? "" : cfg.Default
+//@ pure selGiven(value any, cfg *execution.SelectOptionConfig) string = value == nil ? selDefault(cfg) : unbox(value, string)
+//@ pure selAllowed(v string, cfg *execution.SelectOptionConfig) bool = len(v) == 0 || (cfg != nil && (cfg.AllowCustom || stringsutils.containsStr(cfg.Values, v)))
+
+//@ func EvaluateOptionSelect
+//@   tags C18
+//@   ensures [C18] wrong-type-is-rejected: value != nil && !typeis(value, string) ==> result1 != nil
+//@   ensures [C18] value-or-default: result1 == nil ==> result0 == selGiven(value, cfg)
+//@   ensures [C18] allowed-values-unless-custom: result1 == nil ==> selAllowed(result0, cfg)
+//@   ensures [C18] required-means-non-empty: result1 == nil && option.Required ==> len(result0) > 0
+//@   ensures [C18] accepted-otherwise: (value == nil || typeis(value, string)) && selAllowed(selGiven(value, cfg), cfg) && !(option.Required && len(selGiven(value, cfg)) == 0) ==> result1 == nil
+//@   ensures result1 != nil ==> result0 == ""
+
+// Bool: a missing configuration block formats with the empty format
+//@ pure boolGiven(value any, cfg *execution.BoolOptionConfig) bool = value == nil ? (cfg != nil && cfg.Default) : unbox(value, bool)
+//@ pure boolOut(cfg *execution.BoolOptionConfig, v bool) string = cfg == nil ? execution.boolFmt("", v) : execution.boolStr(cfg, v)
+//@ pure boolOutOK(cfg *execution.BoolOptionConfig) bool = cfg == nil ? execution.boolFmtOK("") : execution.boolStrOK(cfg)
+//@ func EvaluateOptionBool
+//@   tags C18
+//@   ensures [C18] wrong-type-is-rejected: value != nil && !typeis(value, bool) ==> result1 != nil
+//@   ensures [C18] value-or-default-formatted: result1 == nil ==> result0 == boolOut(cfg, boolGiven(value, cfg))
+//@   ensures [C18] accepted-otherwise: (value == nil || typeis(value, bool)) && boolOutOK(cfg) ==> result1 == nil
+//@   ensures result1 != nil ==> result0 == ""
+
+// Multi: the given list, or the default list when none or an empty one is given; every element non-empty and allowed
+//@ pure multiDefault(cfg *execution.MultiOptionConfig) []string = cfg == nil ? nil : cfg.Default
+//@ pure multiDelim(cfg *execution.MultiOptionConfig) string = cfg == nil ? "" : cfg.Delimiter
+//@ pure multiElemsOK(v []string, cfg *execution.MultiOptionConfig) bool =
+//@     forall k int :: {v[k]} 0 <= k && k < len(v) ==> len(v[k]) > 0 && (cfg != nil && (cfg.AllowCustom || stringsutils.containsStr(cfg.Values, v[k])))
+//@ func EvaluateOptionMulti
+//@   tags C18
+//@   loop 1 invariant -1 <= rangeindex && rangeindex < len(vi) && len(newValue) == rangeindex + 1
+//@   loop 2 invariant -1 <= rangeindex && rangeindex < len(v)
+//@   loop 2 invariant forall k int :: {v[k]} 0 <= k && k <= rangeindex ==> len(v[k]) > 0 && (cfg.AllowCustom || stringsutils.containsStr(cfg.Values, v[k]))
+//@   ensures [C18] wrong-type-is-rejected: value != nil && !typeis(value, []string) && !typeis(value, []any) ==> result1 != nil
+//@   ensures [C18] default-when-no-value: value == nil && result1 == nil ==> result0 == joinStrs(multiDefault(cfg), multiDelim(cfg)) && multiElemsOK(multiDefault(cfg), cfg)
+//@   ensures [C18] given-list-joined: typeis(value, []string) && len(unbox(value, []string)) > 0 && result1 == nil ==>
+//@        result0 == joinStrs(unbox(value, []string), multiDelim(cfg)) && multiElemsOK(unbox(value, []string), cfg)
+//@   ensures [C18] default-when-empty-list: typeis(value, []string) && len(unbox(value, []string)) == 0 && result1 == nil ==> result0 == joinStrs(multiDefault(cfg), multiDelim(cfg))
+//@   ensures [C18] required-means-non-empty: result1 == nil && option.Required && (value == nil || (typeis(value, []string) && len(unbox(value, []string)) == 0)) ==> len(multiDefault(cfg)) > 0
+//@   ensures result1 != nil ==> result0 == ""
+
+// Date: time parsing and moment formatting are ASSUMED deterministic partial functions (time.Parse, goment)
+//@ pure momentOK(ts time.Time, format string) bool
+//@ pure momentFmt(ts time.Time, format string) string
+//@ extern func FormatAsMoment
+//@   params ts, format
+//@   ensures (result1 == nil) == momentOK(ts, format)
+//@   ensures result1 == nil ==> result0 == momentFmt(ts, format)
+//@ pure dateFormat(cfg *execution.DateOptionConfig) string = cfg == nil ? "" : cfg.Format
+//@ func EvaluateOptionDate
+//@   tags C18
+//@   ensures [C18] wrong-type-is-rejected: value != nil && !typeis(value, string) && !typeis(value, time.Time) && !typeis(value, *time.Time) ==> result1 != nil
+//@   ensures [C18] no-value-is-empty-unless-required: value == nil ==> (option.Required ? result1 != nil : (result1 == nil && result0 == ""))
+//@   ensures [C18] given-date-formatted: typeis(value, string) && len(unbox(value, string)) > 0 && result1 == nil ==>
+//@        rfc3339OK(unbox(value, string)) && (rfc3339(unbox(value, string)).IsZero() ? result0 == "" : result0 == momentFmt(rfc3339(unbox(value, string)), dateFormat(cfg)))
+//@   ensures [C18] required-means-non-zero-date: result1 == nil && option.Required && typeis(value, string) ==> len(unbox(value, string)) > 0 && !rfc3339(unbox(value, string)).IsZero()
+//@   ensures result1 != nil ==> result0 == ""
+
+// EvaluateOption dispatches on the option type; an unknown type is rejected
+//@ pure optValue(value any, option execution.Option) string =
+//@     option.Type == execution.OptionTypeBool ? boolOut(option.Bool, boolGiven(value, option.Bool))
+//@     : (option.Type == execution.OptionTypeString ? strNorm(strGiven(value, option.String), option.String) : selGiven(value, option.Select))
+//@ pure simpleType(option execution.Option) bool = option.Type == execution.OptionTypeBool || option.Type == execution.OptionTypeString || option.Type == execution.OptionTypeSelect
+//@ pure knownType(option execution.Option) bool = simpleType(option) || option.Type == execution.OptionTypeMulti || option.Type == execution.OptionTypeDate
+//@ func EvaluateOption
+//@   tags C18
+//@   ensures [C18] unknown-type-is-rejected: !knownType(option) ==> result1 != nil
+//@   ensures [C18] value-by-type: result1 == nil && simpleType(option) ==> result0 == optValue(value, option)
+//@   ensures [C18] string-required-non-empty: result1 == nil && option.Required && (option.Type == execution.OptionTypeString || option.Type == execution.OptionTypeSelect) ==> len(result0) > 0
+//@   ensures [C18] select-allowed: result1 == nil && option.Type == execution.OptionTypeSelect ==> selAllowed(result0, option.Select)
+//@   ensures result1 != nil ==> result0 == ""
+
+// the variable that carries an option's value. ASSUMED: fmt's rendering of "option.%v" is injective in the name
+//@ pure optKey(name string) string = sprintf("option.%v", name)
+//@ axiom optkey-injective: forall a string, b string :: {optKey(a), optKey(b)} optKey(a) == optKey(b) ==> a == b
+//@ func MakeOptionVariableName
+//@   ensures [C18] result == optKey(option.Name)
+
+//@ pure distinctNames(opts []execution.Option) bool = forall a int, b int :: 0 <= a && a < b && b < len(opts) ==> opts[a].Name != opts[b].Name
+//@ pure givenFor(options map[string]any, name string) any = (name in options) ? options[name] : nil
+
+// on success exactly one value per declared option, and nothing else
+//@ func EvaluateOptions
+//@   tags C18
 //@   fresh result0
+//@   loop 1 invariant -1 <= rangeindex && rangeindex < len(cfg.Options) && eval != nil && fresh(eval) && len(allErrs) >= 0
+//@   loop 1 invariant len(allErrs) == 0 ==> (forall k int :: {cfg.Options[k]} 0 <= k && k <= rangeindex ==> (optKey(cfg.Options[k].Name) in eval))
+//@   loop 1 invariant forall s string :: (s in eval) ==> (exists k int :: 0 <= k && k <= rangeindex && s == optKey(cfg.Options[k].Name))
+//@   loop 1 invariant len(allErrs) == 0 && distinctNames(cfg.Options) ==> (forall k int :: {cfg.Options[k]} 0 <= k && k <= rangeindex && simpleType(cfg.Options[k]) ==>
+//@        eval[optKey(cfg.Options[k].Name)] == optValue(givenFor(options, cfg.Options[k].Name), cfg.Options[k]))
+//@   ensures [C18] a-value-for-every-option: cfg != nil && len(result1) == 0 ==> (forall k int :: {cfg.Options[k]} 0 <= k && k < len(cfg.Options) ==> (optKey(cfg.Options[k].Name) in result0))
+//@   ensures [C18] nothing-but-options: forall s string :: (s in result0) ==> cfg != nil && (exists k int :: 0 <= k && k < len(cfg.Options) && s == optKey(cfg.Options[k].Name))
+//@   ensures [C18] each-value-is-the-options-own: cfg != nil && len(result1) == 0 && distinctNames(cfg.Options) ==> (forall k int :: {cfg.Options[k]} 0 <= k && k < len(cfg.Options) && simpleType(cfg.Options[k]) ==>
+//@        result0[optKey(cfg.Options[k].Name)] == optValue(givenFor(options, cfg.Options[k].Name), cfg.Options[k]))
+
+// ---- default.go: the value the JobConfig's defaults produce ---------------------------------------------------------------------
+//@ func GetOptionDefaultStringValue
+//@   ensures [C18] result == strNorm(strDefault(cfg), cfg)
+//@ func EvaluateOptionDefaultString
+//@   tags C18
+//@   ensures [C18] result1 == nil && result0 == strNorm(strDefault(cfg), cfg)
+//@ func GetOptionDefaultSelectValue
+//@   ensures [C18] result == selDefault(cfg)
+//@ func EvaluateOptionDefaultSelect
+//@   tags C18
+//@   ensures [C18] result1 == nil && result0 == selDefault(cfg)
+
+// the declared default exactly when no value was given - the same value the JobConfig's defaults produce
+//@ lemma [C18] string-default-agrees: forall cfg *execution.StringOptionConfig :: strNorm(strGiven(nil, cfg), cfg) == strNorm(strDefault(cfg), cfg)
+
+//@ func GetOptionDefaultBoolValue
+//@   ensures [C18] result == (cfg != nil && cfg.Default)
+//@ func EvaluateOptionDefaultBool
+//@   tags C18
+//@   ensures [C18] (result1 == nil) == boolOutOK(cfg)
+//@   ensures [C18] result1 == nil ==> result0 == boolOut(cfg, cfg != nil && cfg.Default)
+//@ func GetOptionDefaultMultiValue
+//@   ensures [C18] result == multiDefault(cfg)
+//@ func EvaluateOptionDefaultMulti
+//@   tags C18
+//@   ensures [C18] result1 == nil && result0 == joinStrs(multiDefault(cfg), multiDelim(cfg))
+
+// the default of an option is what its evaluation yields when no value is given (C18)
+//@ func EvaluateOptionDefault
+//@   tags C18
+//@   ensures [C18] default-is-evaluation-of-no-value: result1 == nil && simpleType(option) ==> result0 == optValue(nil, option)
+//@   ensures [C18] multi-default: result1 == nil && option.Type == execution.OptionTypeMulti ==> result0 == joinStrs(multiDefault(option.Multi), multiDelim(option.Multi))
+//@   ensures [C18] date-default-empty: result1 == nil && option.Type == execution.OptionTypeDate ==> result0 == ""
+//@   ensures [C18] unknown-type-is-rejected: !knownType(option) ==> result1 != nil
+
+//@ func MakeDefaultOptions
+//@   tags C18
+//@   fresh result0
+//@   loop 1 invariant -1 <= rangeindex && rangeindex < len(cfg.Options) && opts != nil && fresh(opts)
+//@   loop 1 invariant forall k int :: {cfg.Options[k]} 0 <= k && k <= rangeindex ==> (optKey(cfg.Options[k].Name) in opts)
+//@   loop 1 invariant distinctNames(cfg.Options) ==> (forall k int :: {cfg.Options[k]} 0 <= k && k <= rangeindex && simpleType(cfg.Options[k]) ==> opts[optKey(cfg.Options[k].Name)] == optValue(nil, cfg.Options[k]))
 //@   ensures result1 == nil ==> result0 != nil
+//@   ensures [C18] a-default-for-every-option: cfg != nil && result1 == nil ==> (forall k int :: {cfg.Options[k]} 0 <= k && k < len(cfg.Options) ==> (optKey(cfg.Options[k].Name) in result0))
+//@   ensures [C18] default-is-evaluation-of-no-value: cfg != nil && result1 == nil && distinctNames(cfg.Options) ==> (forall k int :: {cfg.Options[k]} 0 <= k && k < len(cfg.Options) && simpleType(cfg.Options[k]) ==>
+//@        result0[optKey(cfg.Options[k].Name)] == optValue(nil, cfg.Options[k]))
+
+// ---- substitution.go (C18) ------------------------------------------------------------------------------------------------------
+// MergeSubstitutions: a fresh map in which, for every key, the last map that contains it wins; the inputs are untouched
+//@ pure inSome(ms []map[string]string, n int, k string) bool = exists i int :: 0 <= i && i < n && (k in ms[i])
+//@ func MergeSubstitutions
+//@   tags C18, C16
+//@   fresh result
+//@   loop 1 invariant -1 <= rangeindex && rangeindex < len(paramMaps) && newParams != nil && fresh(newParams)
+//@   loop 1 invariant forall k string :: (k in newParams) == inSome(paramMaps, rangeindex + 1, k)
+//@   loop 1 invariant forall k string, i int :: 0 <= i && i <= rangeindex && (k in paramMaps[i]) && (forall j int :: i < j && j <= rangeindex ==> !(k in paramMaps[j])) ==> newParams[k] == paramMaps[i][k]
+//@   loop 2 invariant 0 <= rangeindex && rangeindex < len(paramMaps) && newParams != nil && fresh(newParams) && params == paramMaps[rangeindex]
+//@   loop 2 invariant forall k string :: (k in newParams) == (inSome(paramMaps, rangeindex, k) || visited(k))
+//@   loop 2 invariant forall k string :: visited(k) ==> (k in params) && newParams[k] == params[k]
+//@   loop 2 invariant forall k string, i int :: !visited(k) && 0 <= i && i < rangeindex && (k in paramMaps[i]) && (forall j int :: i < j && j < rangeindex ==> !(k in paramMaps[j])) ==> newParams[k] == paramMaps[i][k]
+//@   ensures [C18,C16] keys-are-the-union: result != nil && (forall k string :: (k in result) == inSome(paramMaps, len(paramMaps), k))
+//@   ensures [C18,C16] last-map-wins: forall k string, i int :: 0 <= i && i < len(paramMaps) && (k in paramMaps[i]) && (forall j int :: i < j && j < len(paramMaps) ==> !(k in paramMaps[j])) ==> result[k] == paramMaps[i][k]
